@@ -557,3 +557,51 @@ class LoadApplicationAttempts:
 
     def ensures_stops_only_when_loaded_or_out_of_attempts(n_tries, result):
         return (result[0] == {} and result[1] <= n_tries + 1) or result[1] == n_tries + 1
+
+
+# ---- flood_fill_aplx: ONE application of the map (fragment): every application is loaded with its OWN file and its OWN targets ---------
+
+
+def _compress_rec(E, args, kwargs, st, node):
+    s = st.copy()
+    s.trace = ListV(s.trace.items + (("compress", args[0]),))
+    return [(s, st.env["g_fills"])]
+
+
+def _open_rec(E, args, kwargs, st, node):
+    s = st.copy()
+    s.trace = ListV(s.trace.items + (("open",) + tuple(args),))
+    return [(s, _ObjV("File", {}))]
+
+
+@contract("rig/machine_control/machine_controller.py::MachineController.flood_fill_aplx@forbody:0")
+class FloodFillOneApplication:
+    """one application of the map: ITS targets are compressed and ITS file is read; the fill announces the blocks of that very
+    file, selects exactly the pairs just computed (in the order given), sends that file's bytes to the buffer address read for
+    this fill, and ends naming the application id and flags of the call - nothing is carried over from the application before"""
+    properties = ("C09", "C12")
+    params = dict(self=MCF, aplx=TInt(), targets=TInt(), app_id=TInt(0, 255), flags=TInt(0, 255), fr=TInt(0, 0xffff),
+                  g_fills=TList(FILL, FILL), g_binary=BYTES, g_base=TInt(0, 2 ** 32 - 1))
+    fragment_result = ()
+    fragment_head = "for aplx, targets in iteritems(application_map):"
+    externals = {"MachineController._send_ffs": _rec("ffs"), "MachineController._send_ffcs": _rec("ffcs"),
+                 "MachineController._send_ffd": _rec("ffd"), "MachineController._send_ffe": _rec("ffe"),
+                 "MachineController.read_struct_field": _rsf, "def:compress_flood_fill_regions": _compress_rec, "open": _open_rec, "File.__enter__": _file_enter,
+                 "File.__exit__": _file_exit, "File.read": _file_read}
+    assumptions = ["the file's content, the region list (C12) and sv.sdram_sys are ghost inputs; compress_flood_fill_regions, open and the four _send_ff* "
+                   "methods are recorded here and verified by their own contracts"]
+
+    def native(aplx):
+        raise __import__("pyvc.replay", fromlist=["OutsideHarness"]).OutsideHarness()
+
+    def ensures_its_own_targets_file_pairs_and_bytes(self, aplx, targets, app_id, flags, fr, g_fills, g_binary, g_base, _trace):
+        L = self.scp_data_length
+        pid = 2 * (self._nn_id + 1 if self._nn_id < 126 else 1)
+        return (len(_trace) == 8
+                and _trace[0] == ("compress", targets) and _trace[1] == ("open", aplx, "rb")
+                and _trace[2] == ("ffs", pid, (seq_len(g_binary) + L - 1) // L, fr)
+                and _trace[3] == ("ffcs", g_fills[0][0], g_fills[0][1], fr)
+                and _trace[4] == ("ffcs", g_fills[1][0], g_fills[1][1], fr)
+                and _trace[5][0] == "read_struct_field"
+                and _trace[6][0] == "ffd" and _trace[6][1] == pid and _trace[6][2] == g_binary and _trace[6][3] == g_base
+                and _trace[7] == ("ffe", pid, app_id, flags, fr))
